@@ -22,7 +22,9 @@ func propC08(c *Ctx) {
 	c.ruleUnquote()
 	c.ruleNormalisers()
 	c.ruleNextDirectiveRecognised("C08-NEXT-DIRECTIVE") // a tab after the keyword is as good as a blank
-	c.ruleC14NameIsPath()                               // blank lines in front of a file move its errors: the content of a file object is the file's bytes
+	c.ruleBlankPairs("C08-BLANK-PAIRS")
+	c.ruleOpenTransparent(m, "C08-OPEN-TRANSPARENT") // a body in explicit parentheses is the body without them
+	c.ruleC14NameIsPath()                            // blank lines in front of a file move its errors: the content of a file object is the file's bytes
 	if c.R.Tier == "thorough" {
 		c.thoroughScanner(m, "C08")
 	}
